@@ -44,7 +44,7 @@ def run_demo(wt, k):
         tgt = os.path.join(wt, target_dir, "zz_demo%s_test.go" % k)
         shutil.copyfile(demo, tgt)
         try:
-            rc, out = sh("go test -mod=mod -vet=off -count=1" + RACE + " -tags mutdemo,verif -run 'Demo' ./%s/ 2>&1" % target_dir, wt, timeout=1200)
+            rc, out = sh("go test -mod=mod -vet=off -count=1" + RACE + " -tags mutdemo,verif -run 'Demo|Mut' ./%s/ 2>&1" % target_dir, wt, timeout=1200)
         finally:
             os.remove(tgt)
         return rc, out, "copied to " + target_dir
